@@ -1,19 +1,298 @@
 package main
 
+// Chain-level cases of the stream, per hardfork level L (case numbers continue after the permission cases):
+//
+//	+0  system-call sweep (16 flag sets × every system call, through the proxy contract)
+//	+1  native-method sweep (16 flag sets × every native method, through proxy.fwd)
+//	+2  CALLT under 16 flag sets, LoadScript under 16 × 16 (context flags × requested flags)
+//	+3  permission pairs: entry → caller.relay → callee.method for all callers × callees × methods
+//	+4… random call chains through the relay contracts (entry flags, requested flags, safe/non-safe methods)
+
 import (
 	"fmt"
 	"os"
+	"strings"
+
+	"github.com/nspcc-dev/neo-go/pkg/io"
+	"github.com/nspcc-dev/neo-go/pkg/smartcontract/callflag"
+	"github.com/nspcc-dev/neo-go/pkg/vm/emit"
+	"github.com/nspcc-dev/neo-go/pkg/vm/stackitem"
 
 	"verif/harness/internal/hx"
+	"verif/harness/internal/prng"
 )
 
-// chainCases: the chain-level part of the stream (effect sweep, call chains, permission pairs).
+type hop struct {
+	rq     int
+	id     int
+	method string
+}
+
+var relayMethods = []struct {
+	name string
+	safe bool
+}{{"relay", false}, {"a", false}, {"b", false}, {"relaySafe", true}, {"s", true}}
+
+func isSafeMethod(m string) bool { return m == "relaySafe" || m == "s" }
+
+// declare writes the `contract` lines of all relays (the model's view of their manifests).
+func (w *world) declare(o *hx.Out) {
+	for _, r := range w.relays {
+		o.Line(fmt.Sprintf("contract %d %s %s", r.id, idsString(r.groups), permsString(r.perms)), "ok")
+	}
+}
+
+// runChain executes entry(F0) → hops on the real chain; returns the observation line and the flags of the
+// entered contexts (nil on fault).
+func (w *world) runChain(f0 int, hops []hop) (obs string, entered []int, r runResult) {
+	var path []any
+	for _, h := range hops[1:] {
+		path = append(path, []any{w.relayByID(h.id).c.Hash, h.method, h.rq})
+	}
+	if path == nil {
+		path = []any{}
+	}
+	bw := io.NewBufBinWriter()
+	emit.AppCall(bw.BinWriter, w.relayByID(hops[0].id).c.Hash, hops[0].method, callflag.CallFlag(hops[0].rq), path)
+	if bw.Err != nil {
+		panic(&Failure{Msg: "emit chain: " + bw.Err.Error()})
+	}
+	r = w.run(bw.Bytes(), callflag.CallFlag(f0))
+	depth := treeDepth(r.tree) - 1 // dummy root → entry
+	if depth < 0 {
+		depth = 0
+	}
+	if r.panicky {
+		return "panic", nil, r
+	}
+	if !r.halt {
+		switch {
+		case denied(r.msg):
+			return fmt.Sprintf("fault:flags %d", depth), nil, r
+		case strings.Contains(r.msg, "disallowed method call"):
+			return fmt.Sprintf("fault:perm %d", depth), nil, r
+		}
+		return "fault:other " + strings.ReplaceAll(r.msg, " ", "_"), nil, r
+	}
+	if len(r.result) != 1 {
+		return fmt.Sprintf("halt:bad-stack-%d", len(r.result)), nil, r
+	}
+	arr, ok := r.result[0].Value().([]stackitem.Item)
+	if !ok {
+		return "halt:not-an-array", nil, r
+	}
+	for i := len(arr) - 1; i >= 0; i-- { // the leaf's flags come first
+		v, err := arr[i].TryInteger()
+		if err != nil {
+			return "halt:not-an-integer", nil, r
+		}
+		entered = append(entered, int(v.Int64()))
+	}
+	return "halt " + idsString(entered), entered, r
+}
+
+func hopsString(hops []hop) string {
+	s := make([]string, len(hops))
+	for i, h := range hops {
+		s[i] = fmt.Sprintf("%d:%d:%s:%s", h.rq, h.id, h.method, b01(isSafeMethod(h.method)))
+	}
+	return strings.Join(s, " ")
+}
+
+// chainOracle: the property's direct statements on one real chain execution.
+func (w *world) chainOracle(o *hx.Out, k int, f0 int, hops []hop, entered []int, depthEntered int) {
+	prev := f0
+	for i, fl := range entered {
+		if fl&^prev != 0 {
+			o.Fail("flags-grew", k, "context %d of chain (entry %d, hops %s) has flags %d, its caller %d", i, f0, hopsString(hops), fl, prev)
+		}
+		if fl&^hops[i].rq != 0 {
+			o.Fail("flags-exceed-requested", k, "context %d of chain (entry %d, hops %s) has flags %d, requested %d", i, f0, hopsString(hops), fl, hops[i].rq)
+		}
+		if isSafeMethod(hops[i].method) && fl&int(callflag.WriteStates|callflag.AllowNotify) != 0 {
+			o.Fail("safe-keeps-write-or-notify", k, "safe method entered with flags %d (entry %d, hops %s)", fl, f0, hopsString(hops))
+		}
+		prev = fl
+	}
+	// every entered non-safe hop made from a deployed contract needs a matching permission of that contract
+	for i := 1; i < depthEntered && i < len(hops); i++ {
+		if isSafeMethod(hops[i].method) {
+			continue
+		}
+		caller, callee := w.relayByID(hops[i-1].id), w.relayByID(hops[i].id)
+		if !specCanCall(caller.perms, callee.id, callee.groups, hops[i].method) {
+			o.Fail("call-without-permission", k, "relay %d (permissions %s) entered non-safe %s of relay %d (groups %v)", caller.id, permsString(caller.perms), hops[i].method, callee.id, callee.groups)
+		}
+		// a caller without AllowCall|ReadStates cannot have made the call
+		callerFlags := f0
+		if i-1 < len(entered) {
+			callerFlags = entered[i-1]
+		}
+		_ = callerFlags
+	}
+}
+
+func (w *world) chainLine(o *hx.Out, k int, f0 int, hops []hop) string {
+	obs, entered, r := w.runChain(f0, hops)
+	o.Line(fmt.Sprintf("chain %d %s", f0, hopsString(hops)), obs)
+	depthEntered := treeDepth(r.tree) - 1
+	w.chainOracle(o, k, f0, hops, entered, depthEntered)
+	if obs == "panic" {
+		o.Fail("chain-panic", k, "panic outside the VM: %s", r.msg)
+	}
+	// a call made by a context without ReadStates|AllowCall: the tree shows a context below one that lacks them
+	if entered != nil {
+		caller := f0
+		for i, fl := range entered {
+			if caller&5 != 5 {
+				o.Fail("call-without-allowcall", k, "context %d was entered from a context with flags %d (entry %d, hops %s)", i, caller, f0, hopsString(hops))
+			}
+			caller = fl
+		}
+	}
+	cls := strings.SplitN(obs, " ", 2)[0]
+	o.Count("chain:" + cls)
+	return obs
+}
+
+// tokenAndLoadScript: CALLT under the 16 flag sets; LoadScript under 16 × 16.
+func (w *world) tokenAndLoadScript(o *hx.Out, k int) {
+	for F := 0; F < 16; F++ {
+		bw := io.NewBufBinWriter()
+		emit.AppCall(bw.BinWriter, w.proxy.Hash, "viaToken", callflag.CallFlag(F))
+		r := w.run(bw.Bytes(), callflag.All)
+		obs := "passed"
+		switch {
+		case strings.Contains(r.msg, "invalid call flags"):
+			obs = "denied"
+		case !r.halt:
+			obs = "fault:" + strings.ReplaceAll(r.msg, " ", "_")
+		}
+		o.Line(fmt.Sprintf("callt %d", F), obs)
+		nested := nestedBelow(r.tree, 2)
+		if nested > 0 && F&5 != 5 {
+			o.Fail("call-without-allowcall", k, "CALLT executed with flags %d started %d nested contexts", F, nested)
+		}
+		if r.halt && len(r.result) == 1 {
+			if arr, ok := r.result[0].Value().([]stackitem.Item); ok && len(arr) == 1 {
+				if v, err := arr[0].TryInteger(); err == nil && int(v.Int64())&^F != 0 {
+					o.Fail("flags-grew", k, "CALLT callee has flags %d, the caller %d", v.Int64(), F)
+				}
+			}
+		}
+		o.Count("callt:" + strings.SplitN(obs, ":", 2)[0])
+	}
+	for F := 0; F < 16; F++ {
+		for rq := 0; rq < 16; rq++ {
+			bw := io.NewBufBinWriter()
+			emit.AppCall(bw.BinWriter, w.proxy.Hash, "ls", callflag.CallFlag(F), rq)
+			r := w.run(bw.Bytes(), callflag.All)
+			obs := ""
+			switch {
+			case denied(r.msg):
+				obs = "denied"
+			case !r.halt:
+				obs = "fault:" + strings.ReplaceAll(r.msg, " ", "_")
+			case len(r.result) == 1:
+				v, err := r.result[0].TryInteger()
+				if err != nil {
+					obs = "halt:not-an-integer"
+				} else {
+					obs = fmt.Sprint(v.Int64())
+					if int(v.Int64())&^F != 0 || int(v.Int64())&^rq != 0 {
+						o.Fail("flags-grew", k, "LoadScript child has flags %d (context %d, requested %d)", v.Int64(), F, rq)
+					}
+					if int(v.Int64())&int(callflag.WriteStates|callflag.AllowNotify) != 0 {
+						o.Fail("loadscript-child-can-modify", k, "LoadScript child has flags %d (context %d, requested %d)", v.Int64(), F, rq)
+					}
+				}
+			default:
+				obs = fmt.Sprintf("halt:bad-stack-%d", len(r.result))
+			}
+			o.Line(fmt.Sprintf("loadscript %d %d", F, rq), obs)
+			if nestedBelow(r.tree, 2) > 0 && F&int(callflag.AllowCall) == 0 {
+				o.Fail("call-without-allowcall", k, "LoadScript executed with flags %d started a context", F)
+			}
+			if obs == "denied" {
+				o.Count("loadscript:denied")
+			} else {
+				o.Count("loadscript:passed")
+			}
+		}
+	}
+}
+
+// permissionPairs: entry(All) → caller.relay(All) → callee.method(All) for every pair and method.
+func (w *world) permissionPairs(o *hx.Out, k int) {
+	w.declare(o)
+	for _, caller := range w.relays {
+		for _, callee := range w.relays {
+			for _, m := range relayMethods {
+				hops := []hop{{15, caller.id, "relay"}, {15, callee.id, m.name}}
+				obs := w.chainLine(o, k, 15, hops)
+				o.Seen(fmt.Sprintf("pair/%d/%d/%s", caller.id, callee.id, m.name))
+				want := m.safe || specCanCall(caller.perms, callee.id, callee.groups, m.name)
+				switch {
+				case want && strings.HasPrefix(obs, "halt "):
+					o.Count("pairs:allowed")
+				case !want && strings.HasPrefix(obs, "fault:perm"):
+					o.Count("pairs:refused")
+				default:
+					o.Count("pairs:other")
+				}
+			}
+		}
+	}
+}
+
+func genChain(r *prng.R, maxDepth int) (int, []hop) {
+	f0 := 15
+	switch r.Intn(4) {
+	case 0:
+		f0 = r.Intn(16)
+	case 1:
+		f0 = 5 | r.Intn(16)
+	}
+	n := r.Range(1, maxDepth)
+	hops := make([]hop, n)
+	for i := range hops {
+		rq := 15
+		switch r.Intn(5) {
+		case 0:
+			rq = r.Intn(16)
+		case 1, 2:
+			rq = 5 | r.Intn(16)
+		}
+		m := relayMethods[r.Intn(len(relayMethods))].name
+		if r.Chance(1, 3) {
+			m = "relay"
+		}
+		hops[i] = hop{rq: rq, id: r.Range(1, 8), method: m}
+	}
+	return f0, hops
+}
+
+// chainCases: the chain-level part of the stream.
 func chainCases(f *hx.Flags, o *hx.Out, first int) {
 	k := first
-	levels := []int{7}
+	levels := []int{7, 8, 6, 5, 4, 3, 2, 1, 0} // 7 = latest stable hardfork (the default configuration) first
+	nChains := 400
+	maxDepth := 4
+	if f.Tier == "thorough" {
+		nChains = 20000
+		maxDepth = 6
+	}
 	for _, hf := range levels {
-		if !f.Want(k) && !f.Want(k+1) {
-			k += 2
+		span := 4 + nChains
+		wanted := false
+		for j := k; j < k+span; j++ {
+			if f.Want(j) {
+				wanted = true
+				break
+			}
+		}
+		if !wanted {
+			k += span
 			continue
 		}
 		var w *world
@@ -24,23 +303,44 @@ func chainCases(f *hx.Flags, o *hx.Out, first int) {
 		if err != nil {
 			fmt.Fprintln(os.Stderr, "world setup failed:", err)
 			o.Fail("world-setup", k, "hardfork level %d: %v", hf, err)
-			k += 2
+			k += span
 			continue
 		}
-		if f.Want(k) {
+		fixed := []func(k int){
+			func(k int) { w.sweepSyscalls(o, k) },
+			func(k int) { w.sweepNatives(o, k) },
+			func(k int) { w.tokenAndLoadScript(o, k) },
+			func(k int) { w.permissionPairs(o, k) },
+		}
+		for _, fn := range fixed {
+			if f.Want(k) {
+				o.Case(k)
+				o.Count(fmt.Sprintf("world:hardfork-level-%d", hf))
+				if err := Try(func() { fn(k) }); err != nil {
+					o.Fail("chain-harness", k, "%v", err)
+				}
+			}
+			k++
+		}
+		for i := 0; i < nChains; i, k = i+1, k+1 {
+			if !f.Want(k) {
+				continue
+			}
 			o.Case(k)
-			if err := Try(func() { w.sweepSyscalls(o, k) }); err != nil {
-				o.Fail("sweep-harness", k, "%v", err)
+			r := prng.ForCase(f.Seed, k)
+			f0, hops := genChain(r, maxDepth)
+			if err := Try(func() {
+				w.declare(o)
+				obs := w.chainLine(o, k, f0, hops)
+				o.Seen(fmt.Sprintf("chain/%d/%s", f0, hopsString(hops)))
+				o.Count(fmt.Sprintf("chain:depth-%d", len(hops)))
+				if k%97 == 0 {
+					o.Sample(fmt.Sprintf("chain %d %s -> %s", f0, hopsString(hops), obs))
+				}
+			}); err != nil {
+				o.Fail("chain-harness", k, "%v", err)
 			}
 		}
-		k++
-		if f.Want(k) {
-			o.Case(k)
-			if err := Try(func() { w.sweepNatives(o, k) }); err != nil {
-				o.Fail("sweep-harness", k, "%v", err)
-			}
-		}
-		k++
 		w.done()
 	}
 }
